@@ -756,8 +756,9 @@ struct TrigInst {
 // fmod / remainder (always), hypot / arctan2 (when Hyp: implicit-rep conversion to the common unit permitted)
 template <class U1, class U2> struct RatioInfo {
     using CU = au::CommonUnitT<U1, U2>;
-    static void put_info(std::string& o) {
-        using M1 = decltype(au::unit_ratio(U1{}, CU{})); using M2 = decltype(au::unit_ratio(U2{}, CU{}));
+    static void put_info(std::string& o) { put_info_for(CU{}, o); }
+    template <class CUx> static void put_info_for(CUx, std::string& o) {
+        using M1 = decltype(au::unit_ratio(U1{}, CUx{})); using M2 = decltype(au::unit_ratio(U2{}, CUx{}));
         char b[160];
         snprintf(b, sizeof b, "r1=%%llu/%%llu r2=%%llu/%%llu",
                  (unsigned long long)au::get_value<std::uint64_t>(au::numerator(M1{})), (unsigned long long)au::get_value<std::uint64_t>(au::denominator(M1{})),
@@ -850,6 +851,86 @@ struct ClampInst {
     }
 };
 
+// min / max / clamp of QuantityPoint (math.hh: the point overloads, incl. the identical-type ones that forward to std::)
+template <class R1, class U1, class R2, class U2>
+struct PointMinMaxInst {
+    using P1 = au::QuantityPoint<U1, R1>; using P2 = au::QuantityPoint<U2, R2>;
+    using CU = au::CommonPointUnitT<U1, U2>; using CR = std::common_type_t<R1, R2>;
+    static_assert(std::is_same<std::decay_t<decltype(call_max(std::declval<P1>(), std::declval<P2>()))>, au::QuantityPoint<CU, CR>>::value, "max unit (point)");
+    static_assert(std::is_same<std::decay_t<decltype(call_min(std::declval<P1>(), std::declval<P2>()))>, au::QuantityPoint<CU, CR>>::value, "min unit (point)");
+    static void pt(int argc, char** argv, std::string& o) {
+        for (int i = 0; i + 1 < argc; i += 2) {
+            token(o, [&] {
+                P1 p1 = au::make_quantity_point<U1>(IO<R1>::parse(argv[i])); P2 p2 = au::make_quantity_point<U2>(IO<R2>::parse(argv[i + 1]));
+                long u0 = g_ub;
+                putc(o, call_max(p1, p2).in(CU{})); putc(o, call_min(p1, p2).in(CU{})); put(o, g_ub - u0);
+            });
+        }
+    }
+    static void sweep(int, char**, std::string& o) { RatioInfo<U1, U2>::put_info_for(CU{}, o); }
+};
+template <class RV, class UV, class RL, class UL, class RH, class UH>
+struct PointClampInst {
+    using PV = au::QuantityPoint<UV, RV>; using PL = au::QuantityPoint<UL, RL>; using PH = au::QuantityPoint<UH, RH>;
+    using CU = au::CommonPointUnitT<UV, UL, UH>; using CR = std::common_type_t<RV, RL, RH>;
+    static_assert(std::is_same<std::decay_t<decltype(call_clamp(std::declval<PV>(), std::declval<PL>(), std::declval<PH>()))>, au::QuantityPoint<CU, CR>>::value, "clamp unit (point)");
+    static void pt(int argc, char** argv, std::string& o) {
+        for (int i = 0; i + 2 < argc; i += 3) {
+            token(o, [&] {
+                PV v = au::make_quantity_point<UV>(IO<RV>::parse(argv[i])); PL l = au::make_quantity_point<UL>(IO<RL>::parse(argv[i + 1]));
+                PH h = au::make_quantity_point<UH>(IO<RH>::parse(argv[i + 2]));
+                long u0 = g_ub;
+                putc(o, call_clamp(v, l, h).in(CU{})); put(o, g_ub - u0);
+            });
+        }
+    }
+    static void sweep(int, char**, std::string& o) {
+        using M1 = decltype(au::unit_ratio(UV{}, CU{})); using M2 = decltype(au::unit_ratio(UL{}, CU{})); using M3 = decltype(au::unit_ratio(UH{}, CU{}));
+        char b[200];
+        snprintf(b, sizeof b, "r1=%%llu/%%llu r2=%%llu/%%llu r3=%%llu/%%llu",
+                 (unsigned long long)au::get_value<std::uint64_t>(au::numerator(M1{})), (unsigned long long)au::get_value<std::uint64_t>(au::denominator(M1{})),
+                 (unsigned long long)au::get_value<std::uint64_t>(au::numerator(M2{})), (unsigned long long)au::get_value<std::uint64_t>(au::denominator(M2{})),
+                 (unsigned long long)au::get_value<std::uint64_t>(au::numerator(M3{})), (unsigned long long)au::get_value<std::uint64_t>(au::denominator(M3{})));
+        o += b;
+    }
+};
+
+// ---------------------------------------------------------------------------------------------
+// Other spellings of the unit slot (QuantityMaker, prefix applied to a maker, QuantityPointMaker, SymbolFor) and the
+// "shapeshifter" ZERO as an argument of the hidden friends.  argv = x*   (double values)
+struct SpellInst {
+    template <class A, class B> static bool same_q(A a, B b) { return std::is_same<A, B>::value && same(a.in(typename A::Unit{}), b.in(typename B::Unit{})); }
+    static void pt(int argc, char** argv, std::string& o) {
+        for (int i = 0; i < argc; ++i) {
+            token(o, [&] {
+                double x = IO<double>::parse(argv[i]);
+                auto q = au::milli(au::meters)(x);
+                auto p = au::milli(au::meters_pt)(x);
+                auto f = au::kilo(au::hertz)(x);
+                put(o, same_q(au::round_as(au::meters, q), au::round_as(au::Meters{}, q)));
+                put(o, same_q(au::floor_as(au::centi(au::meters), q), au::floor_as(au::Centi<au::Meters>{}, q)));
+                put(o, same_q(au::ceil_as(au::symbols::m, q), au::ceil_as(au::Meters{}, q)));
+                put(o, same(au::round_in(au::meters, q), au::round_in(au::Meters{}, q)));
+                put(o, same(au::floor_in<int>(au::centi(au::meters), au::meters(3.25)), 325));
+                put(o, same_q(au::round_as(au::meters_pt, p), au::round_as(au::Meters{}, p)));
+                put(o, same_q(au::floor_as<float>(au::centi(au::meters_pt), p), au::floor_as<float>(au::Centi<au::Meters>{}, p)));
+                put(o, same(au::ceil_in(au::meters_pt, p), au::ceil_in(au::Meters{}, p)));
+                put(o, same_q(au::inverse_as(au::micro(au::seconds), f), au::inverse_as(au::Micro<au::Seconds>{}, f)));
+                put(o, same(au::inverse_in(au::micro(au::seconds), f), au::inverse_in(au::Micro<au::Seconds>{}, f)));
+                put(o, same_q(au::inverse_as<float>(au::nano(au::seconds), f), au::inverse_as<float>(au::Nano<au::Seconds>{}, f)));
+                put(o, same(au::inverse_in(au::nano(au::seconds), au::kilo(au::hertz)(40)), 25000));
+                o += ",";
+                auto m = au::meters(x);
+                putc(o, call_max(m, au::ZERO).in(au::meters)); putc(o, call_max(au::ZERO, m).in(au::meters));
+                putc(o, call_min(m, au::ZERO).in(au::meters)); putc(o, call_min(au::ZERO, m).in(au::meters));
+                putc(o, call_clamp(m, au::ZERO, au::meters(10.0)).in(au::meters));
+                put(o, call_clamp(m, au::meters(-10.0), au::ZERO).in(au::meters));
+            });
+        }
+    }
+    static void sweep(int, char**, std::string& o) { o += "unsupported"; }
+};
+
 // ---------------------------------------------------------------------------------------------
 // abs / copysign / isnan   argv = (x s)*
 template <class R, class U>
@@ -939,6 +1020,7 @@ int main() {
 '''
 
 ALLOWED_REJECTIONS = (
+    "Can only use trig functions with Angle-dimensioned Quantity instances",
     "Dangerous inversion risking truncation to 0",
     "Dangerous inversion: this Rep cannot hold values large enough for a safe",
     "Cannot represent constant in this unit/rep",
